@@ -219,6 +219,7 @@ type Checker struct {
 	through *ssa.BasicBlock
 	avoidB  map[*ssa.BasicBlock]bool
 	targets map[*ssa.BasicBlock]bool
+	boolIdx  int // helperCall: which result of the helper the condition tests (multi-value helpers)
 	phiDepth int // recursion bound for φ-valued conditions
 	phiNest  int // nesting bound for φ of φ
 }
@@ -340,8 +341,18 @@ func (c *Checker) funcOfParam(v ssa.Value) (*ssa.Function, map[string]string) {
 // boolean) or `call == nil` / `call != nil` on an error-returning call (want = nil-ness).
 func (c *Checker) helperCall(v ssa.Value) (call *ssa.Call, isErr bool, pol bool) {
 	v, pol = stripNot(v)
+	c.boolIdx = 0
 	if cl, ok := v.(*ssa.Call); ok && isBool(cl) {
 		return cl, false, pol
+	}
+	// the boolean component of a multi-value helper: (x, found bool)
+	if ex, ok := v.(*ssa.Extract); ok && isBool(ex) {
+		if cl, ok := ex.Tuple.(*ssa.Call); ok && !cl.Call.IsInvoke() {
+			if h := cl.Call.StaticCallee(); h != nil && len(h.Blocks) > 0 && h.Pkg != nil && prog.InModule(h.Pkg.Pkg.Path()) {
+				c.boolIdx = ex.Index
+				return cl, false, pol
+			}
+		}
 	}
 	if bo, ok := v.(*ssa.BinOp); ok && (bo.Op == token.EQL || bo.Op == token.NEQ) {
 		var other ssa.Value
@@ -384,6 +395,27 @@ func (c *Checker) helperImplies(call *ssa.Call, isErr bool, want bool, atoms []A
 	if c.Depth >= MaxHelperDepth {
 		return false
 	}
+	bidx := 0
+	if !isErr {
+		if tup, ok := call.Type().(*types.Tuple); ok && tup.Len() > 1 {
+			bidx = c.boolIdx
+			if bidx >= tup.Len() || !isBoolType(tup.At(bidx).Type()) {
+				// find the single bool component
+				bidx = -1
+				for i := 0; i < tup.Len(); i++ {
+					if isBoolType(tup.At(i).Type()) {
+						if bidx >= 0 {
+							return false
+						}
+						bidx = i
+					}
+				}
+				if bidx < 0 {
+					return false
+				}
+			}
+		}
+	}
 	_, callees := term.CalleeName(c.P, &call.Call)
 	var freeSubst map[string]string
 	if len(callees) != 1 && !call.Call.IsInvoke() {
@@ -424,7 +456,10 @@ func (c *Checker) helperImplies(call *ssa.Call, isErr bool, want bool, atoms []A
 		}
 		res := ret.Results[len(ret.Results)-1]
 		if !isErr {
-			res = ret.Results[0]
+			if bidx >= len(ret.Results) {
+				continue
+			}
+			res = ret.Results[bidx]
 		}
 		k, isC := res.(*ssa.Const)
 		if !isErr {
@@ -516,6 +551,69 @@ func (c *Checker) helperImplies(call *ssa.Call, isErr bool, want bool, atoms []A
 				if isNil {
 					continue
 				}
+			}
+		}
+		n++
+		if ok, _ := hc.MustPass(b, atoms); !ok {
+			return false
+		}
+	}
+	return n > 0
+}
+
+// enumTest recognises  h(...) == K  /  h(...) != K  with h a module helper with a body returning one non-bool,
+// non-error value and K a constant: the condition is true exactly when (result == K) == eqPol.
+func (c *Checker) enumTest(v ssa.Value) (call *ssa.Call, k *ssa.Const, eqPol bool, ok bool) {
+	v, pol := stripNot(v)
+	bo, isBo := v.(*ssa.BinOp)
+	if !isBo || (bo.Op != token.EQL && bo.Op != token.NEQ) {
+		return nil, nil, false, false
+	}
+	x, y := bo.X, bo.Y
+	if _, isC := x.(*ssa.Const); isC {
+		x, y = y, x
+	}
+	kc, isC := y.(*ssa.Const)
+	if !isC || kc.Value == nil || kc.Value.Kind() == constant.Bool {
+		return nil, nil, false, false
+	}
+	cl, isCall := x.(*ssa.Call)
+	if !isCall || cl.Call.IsInvoke() {
+		return nil, nil, false, false
+	}
+	h := cl.Call.StaticCallee()
+	if h == nil || len(h.Blocks) == 0 || h.Pkg == nil || !prog.InModule(h.Pkg.Pkg.Path()) || h.Signature.Results().Len() != 1 {
+		return nil, nil, false, false
+	}
+	if bo.Op == token.NEQ {
+		pol = !pol
+	}
+	return cl, kc, pol, true
+}
+
+// enumImplies: the helper handing back K (wantEq) / something else implies one of the atoms.
+func (c *Checker) enumImplies(call *ssa.Call, k *ssa.Const, wantEq bool, atoms []Atom) bool {
+	if c.Depth >= MaxHelperDepth {
+		return false
+	}
+	h := call.Call.StaticCallee()
+	subst := make([]string, len(h.Params))
+	for i, a := range call.Call.Args {
+		if i < len(subst) {
+			subst[i] = c.T(a)
+		}
+	}
+	hc := &Checker{P: c.P, Fn: h, Res: term.NewResolver(c.P, c.Res.Mods, h), Subst: subst, Depth: c.Depth + 1, ArgVals: call.Call.Args, Parent: c}
+	n := 0
+	for _, b := range h.Blocks {
+		ret, ok := b.Instrs[len(b.Instrs)-1].(*ssa.Return)
+		if !ok || len(ret.Results) != 1 {
+			continue
+		}
+		if rc, isC := ret.Results[0].(*ssa.Const); isC && rc.Value != nil {
+			same := constant.Compare(rc.Value, token.EQL, k.Value)
+			if same != wantEq {
+				continue
 			}
 		}
 		n++
@@ -654,6 +752,16 @@ func (c *Checker) directCut(atoms []Atom) map[cfgx.Edge]bool {
 				cut[cfgx.Edge{From: b, To: b.Succs[0]}] = true
 			}
 			if c.helperImplies(call, isErr, !hpol, atoms) {
+				cut[cfgx.Edge{From: b, To: b.Succs[1]}] = true
+			}
+		}
+		// a comparison of a helper's result with a constant (an enum-like classification computed by the helper):
+		// only the return sites that hand back that constant (resp. another one) can have been taken
+		if call, k, eqPol, ok := c.enumTest(iff.Cond); ok && len(atoms) > 0 {
+			if c.enumImplies(call, k, eqPol, atoms) {
+				cut[cfgx.Edge{From: b, To: b.Succs[0]}] = true
+			}
+			if c.enumImplies(call, k, !eqPol, atoms) {
 				cut[cfgx.Edge{From: b, To: b.Succs[1]}] = true
 			}
 		}
@@ -925,6 +1033,11 @@ func nilCond(v ssa.Value, val valuation) (bool, bool) {
 		}
 	}
 	return false, false
+}
+
+func isBoolType(t types.Type) bool {
+	b, ok := t.Underlying().(*types.Basic)
+	return ok && b.Kind() == types.Bool
 }
 
 func isBool(v ssa.Value) bool {
